@@ -49,6 +49,7 @@ SegmentAcceptable(wr, seg0) ==
     IN
     /\ IsBelowPow2(seg.s, 64) /\ IsBelowPow2(seg.l, 64)          \* table fields are 64-bit
     /\ ~IsZero(seg.l)
+    /\ IsBelowPow2(Add(seg.s, seg.l), 64)                        \* the segment ends inside the 64-bit word-address space
     /\ Le(BV(seg.dl, 9), seg.l)                                  \* data fits in the segment
     /\ IsEven(seg.s) /\ IsEven(seg.l)
     /\ seg.dl % 2 = 0                                            \* whole ops (the reader requires it)
@@ -124,6 +125,8 @@ DecodeWithPool(b, hd, pool) ==
                        /\ BVal(sg.dlN) % 2 = 0
                        /\ BVal(sg.dsN) + BVal(sg.dlN) <= nwords
                        /\ Le(sg.dlN, sg.l)
+                       /\ ~IsZero(sg.l)                                               \* the writer never produces an empty segment
+                       /\ IsBelowPow2(Add(Ext(sg.s, 9), Ext(sg.l, 9)), 64)            \* ... nor one that ends beyond the word-address space
         \* the table is consistent with itself: no two (non-empty) segments claim the same memory word
         End9(k) == Add(Ext(Seg(k).s, 9), Ext(Seg(k).l, 9))
         NonEmpty(k) == Seg(k).l # Zeros(8)
